@@ -516,6 +516,30 @@ func (r *c11Runner) one(cfg *c11Cfg, h c11Hist) {
 		return
 	}
 
+	authedFn := func(cs []*vfCookie, both bool) (bool, string) {
+		if len(cs) == 0 {
+			return false, ""
+		}
+		hdr := vfCookieHeader(cs)
+		ui := p.Do(vfGET(cfg.Prefix+"/userinfo", "Cookie", hdr).WithHost(h.HostOut))
+		run.Count("replay_requests", 1)
+		if ui.Code == 200 {
+			return true, fmt.Sprintf("userinfo %d %s", ui.Code, vfTrunc(strings.TrimSpace(string(ui.Body)), 80))
+		}
+		if !both {
+			return false, ""
+		}
+		id := fmt.Sprintf("%s-replay-%d", sub, atomic.AddInt64(&c11Seq, 1))
+		pr := p.Do(vfGET(cfg.Base+"replay", "Cookie", hdr, "X-Vf-Id", id).WithHost(h.HostOut))
+		run.Count("replay_requests", 1)
+		hit := len(r.w.Up.FindHit(id)) > 0
+		if hit || pr.Code == 200 {
+			return true, fmt.Sprintf("userinfo %d, protected path %d upstream-hit=%v", ui.Code, pr.Code, hit)
+		}
+		return false, ""
+	}
+	authed := authedFn
+	explained := false
 	// --- R1: every presented session cookie must be gone from the jar
 	if success || h.Fault == "" {
 		left := map[*vfCookie]bool{}
@@ -540,8 +564,17 @@ func (r *c11Runner) one(cfg *c11Cfg, h c11Hist) {
 				fresh = append(fresh, c)
 			}
 		}
+		explained = len(survivors) > 0
 		if len(fresh) > 0 && len(survivors) == 0 {
-			run.Violation("c11:sign-out-response-sets-session-cookie-it-does-not-delete", fmt.Sprintf("[%s] the sign-out response (which refreshed the session) stored %d new session cookie(s) and deleted only the presented ones: %v remain", cfg.Label, len(setBySignOut), c11Describe(fresh)),
+			explained = true
+			still := ""
+			if success {
+				if ok, what := authedFn(b.Jar.For(h.HostOut, cfg.Base+"replay", false), true); ok {
+					still = "; the browser's next request is STILL AUTHENTICATED (" + what + ")"
+				}
+			}
+			run.Violation("c11:refresh-on-sign-out-leaves-new-session-cookies", fmt.Sprintf("[%s] the sign-out request refreshed the session: the response stored %d new session cookie(s) and deleted only the %d presented one(s); %v remain in the browser%s",
+				cfg.Label, len(setBySignOut), len(presented), c11Describe(fresh), still),
 				detail(map[string]interface{}{"presented": c11Describe(presented), "remaining": c11Describe(fresh), "set_cookie": c11Lines(so.SetCookies())}))
 		}
 	}
@@ -550,30 +583,8 @@ func (r *c11Runner) one(cfg *c11Cfg, h c11Hist) {
 	if !success {
 		return
 	}
-	authed := func(cs []*vfCookie, both bool) (bool, string) {
-		if len(cs) == 0 {
-			return false, ""
-		}
-		hdr := vfCookieHeader(cs)
-		ui := p.Do(vfGET(cfg.Prefix+"/userinfo", "Cookie", hdr).WithHost(h.HostOut))
-		run.Count("replay_requests", 1)
-		if ui.Code == 200 {
-			return true, fmt.Sprintf("userinfo %d %s", ui.Code, vfTrunc(strings.TrimSpace(string(ui.Body)), 80))
-		}
-		if !both {
-			return false, ""
-		}
-		id := fmt.Sprintf("%s-replay-%d", sub, atomic.AddInt64(&c11Seq, 1))
-		pr := p.Do(vfGET(cfg.Base+"replay", "Cookie", hdr, "X-Vf-Id", id).WithHost(h.HostOut))
-		run.Count("replay_requests", 1)
-		hit := len(r.w.Up.FindHit(id)) > 0
-		if hit || pr.Code == 200 {
-			return true, fmt.Sprintf("userinfo %d, protected path %d upstream-hit=%v", ui.Code, pr.Code, hit)
-		}
-		return false, ""
-	}
 	final := b.Jar.For(h.HostOut, cfg.Base+"replay", false)
-	if ok, what := authed(final, true); ok {
+	if ok, what := authed(final, true); ok && !explained {
 		run.Violation("c11:browser-still-authenticated-after-sign-out", fmt.Sprintf("[%s] after the 302 sign-out the browser's own next request is authenticated (%s) with jar %v", cfg.Label, what, c11Describe(final)),
 			detail(map[string]interface{}{"jar": c11Describe(final), "set_cookie": c11Lines(so.SetCookies())}))
 	}
